@@ -168,6 +168,18 @@ func Slice(v ssa.Value, throughCalls bool, visit func(ssa.Value) bool) bool {
 					}
 					return false
 				}
+				if fv, ok := x.X.(*ssa.FreeVar); ok {
+					// a variable captured by reference: follow what this literal itself stores into it
+					if refs := fv.Referrers(); refs != nil {
+						for _, ref := range *refs {
+							if st, ok := ref.(*ssa.Store); ok && st.Addr == ssa.Value(fv) {
+								if walk(st.Val) {
+									return true
+								}
+							}
+						}
+					}
+				}
 				if fa, ok := x.X.(*ssa.FieldAddr); ok {
 					// follow stores to the same field of the same base in this function
 					if fn := x.Parent(); fn != nil {
